@@ -66,6 +66,8 @@ func corruptions() []corruption {
 			corruption{name: "null-result", method: m, apply: null0},
 			corruption{name: "error-member", method: m, apply: err0},
 			corruption{name: "http-500", method: m, status: 500},
+			corruption{name: "http-404-valid-body", method: m, status: 404, keepBody: true, mustFail: true},
+			corruption{name: "http-301-valid-body", method: m, status: 301, keepBody: true, mustFail: true},
 			corruption{name: "truncated-body", method: m, trunc: true},
 		)
 	}
@@ -87,6 +89,24 @@ func corruptions() []corruption {
 				}
 				return rs
 			})
+		}},
+		// the logs come from another fork than the headers fetched before them: if
+		// the answer is accepted the block must carry the hash its logs name
+		corruption{name: "logs-name-another-fork", method: "eth_getLogs", apply: func(out []any) []any {
+			return setResult(out, len(out)-1, func(r any) any {
+				ls := append([]any{}, r.([]any)...)
+				for i := range ls {
+					x := cp(ls[i])
+					x["blockHash"] = pat(0xf0, 0xf0, 0x0f, 32)
+					ls[i] = x
+				}
+				return ls
+			})
+		}, expect: func(name string, n, i, k uint64) (string, bool) {
+			if name == "block_hash" {
+				return pat(0xf0, 0xf0, 0x0f, 32), true
+			}
+			return "", false
 		}},
 		corruption{name: "log-out-of-range", method: "eth_getLogs", apply: func(out []any) []any {
 			return setResult(out, len(out)-1, func(r any) any {
@@ -117,6 +137,7 @@ func TestVerifCorruptBounded(t *testing.T) {
 		{"log", []string{"block_num", "log_addr"}},                       // logs
 		{"log", []string{"block_num", "block_time", "log_idx"}},          // headers + logs
 		{"log", []string{"block_num", "tx_input", "log_addr"}},           // blocks + logs
+		{"log", []string{"block_num", "block_hash", "block_time", "log_addr"}}, // headers + logs, hash stored
 		{"trace", []string{"block_num", "trace_action_from"}},            // traces
 		{"trace", []string{"block_num", "tx_status", "trace_action_to"}}, // receipts + traces
 	}
@@ -139,11 +160,16 @@ func TestVerifCorruptBounded(t *testing.T) {
 				nodeMu.Lock()
 				nodeCorrupt, nodeHits = &c, 0
 				nodeMu.Unlock()
+				expectHook = c.expect
 				msgs := runSetN(t, ts, pl.mode, pl.set, limit, true)
+				expectHook = nil
 				nodeMu.Lock()
 				hits := nodeHits
 				nodeCorrupt = nil
 				nodeMu.Unlock()
+				if hits > 0 && c.mustFail && !lastRejected {
+					msgs = append(msgs, fmt.Sprintf("a response with HTTP status %d was used", c.status))
+				}
 				if hits == 0 {
 					continue // this plan does not use the corrupted method
 				}
